@@ -163,6 +163,8 @@ func handleLSet(params internal.HandlerFuncParams) ([]byte, error) {
 		return nil, errors.New("index must be within list range")
 	}
 
+	// The stored list is not touched before the write has been accepted (it can be refused at the memory limit).
+	list = append([]string{}, list...)
 	list[index] = params.Command[3]
 	if err = params.SetValues(params.Context, map[string]interface{}{key: list}); err != nil {
 		return nil, err
